@@ -42,7 +42,10 @@ func runC16(c *wk.Ctx) {
 		panic("HARNESS BUG: " + err.Error())
 	}
 	n := c.N(6_000, 200_000)
-	buf := make([]byte, packet.EthMaxSize)
+	// the caller's buffer: Parse works on whatever the caller read into, and a packet socket with receive offload or a jumbo
+	// MTU hands over more than one standard frame's worth
+	big := make([]byte, 40000)
+	buf := big[:packet.EthMaxSize]
 	inSess := 0
 	for i := int64(1); i <= n; i++ {
 		if !c.Mine(i) {
@@ -50,8 +53,13 @@ func runC16(c *wk.Ctx) {
 		}
 		r := c.Rand("c16", i)
 		f := gen.Structural(r, env)
+		buf = big[:packet.EthMaxSize]
 		if len(f.B) > len(buf) {
-			continue
+			if len(f.B) > len(big) {
+				continue
+			}
+			buf = big[:len(f.B)+16]
+			c.Obs("frames_larger_than_a_standard_frame", 1)
 		}
 		if i%4 == 3 {
 			c.Obs("truncated_frames_tried", 1)
